@@ -222,22 +222,38 @@ def call_generate(text: str, ftype: str, out: Path | None, opts: dict, cwd: Path
     return err, after
 
 
+OUT_FORMS = ["absolute", "relative", "relative_nested", "relative_dotdot"]
+
+
+def output_argument(root: Path, work: Path, out: Path, form: str) -> tuple[Path, Path]:
+    """(the `output=` argument, the working directory of the call) for the way the output path is written:
+    absolute; relative to the cwd with one component (cwd = its parent); relative with a parent component
+    (`parent/pkg`, cwd = scratch root); relative through `..` (cwd = a sibling of the parent)"""
+    if form == "relative":
+        return Path(out.name), work
+    if form == "relative_nested":
+        return Path(work.name) / out.name, root
+    if form == "relative_dotdot":
+        return Path("..") / work.name / out.name, root / "cwd"
+    return out, root / "cwd"
+
+
 def one_run(ck: Check, camp, *, doc: str, text: str, ftype: str, modular: bool, state: str, opts: dict,
-            inject: tuple | None, base_cls: dict) -> dict | None:
+            inject: tuple | None, base_cls: dict, out_form: str = "absolute") -> dict | None:
     """one real run in a fresh scratch parent; evaluates the property's oracle. Returns the observation."""
-    root = Path(tempfile.mkdtemp(dir=e2e.scratch_root()))
+    root = Path(tempfile.mkdtemp(dir=e2e.scratch_root())).resolve()
     work = root / "parent"
     work.mkdir()
-    cwd = root / "cwd"
-    cwd.mkdir()
+    (root / "cwd").mkdir()
     out = prepare(work, state, modular)
+    out_arg, cwd = output_argument(root, work, out, out_form)
     header_file = None
     if isinstance(opts.get("custom_file_header_path"), str) and opts["custom_file_header_path"].startswith("<text>:"):
         header_file = root / "header.txt"  # beside the scratch parent: an input, part of the snapshot
         header_file.write_text(opts["custom_file_header_path"][len("<text>:"):], encoding="utf-8")
     before = snapshot(root)
     inp = {"doc": doc, "text": text if doc.startswith(("seeded", "genuine", "header")) else None, "input_file_type": ftype, "modular": modular,
-           "output_state": state, "opts": {k: (str(v) if isinstance(v, Path) else v) for k, v in opts.items()},
+           "output_state": state, "out_form": out_form, "opts": {k: (str(v) if isinstance(v, Path) else v) for k, v in opts.items()},
            "inject": None if inject is None else {"stage": inject[0], "nth": inject[3], "after": inject[4], "exc": inject[5]}}
     run_opts = dict(opts)
     if run_opts.get("custom_file_header_path") == "<missing>":
@@ -247,12 +263,12 @@ def one_run(ck: Check, camp, *, doc: str, text: str, ftype: str, modular: bool, 
     fired = True
     try:
         if inject is None:
-            err, cwd_after = call_generate(text, ftype, out, run_opts, cwd)
+            err, cwd_after = call_generate(text, ftype, out_arg, run_opts, cwd)
         else:
             _, owner, attr, nth, after, excname = inject
             exc = {"Injected": Injected("injected fault"), "KeyboardInterrupt": KeyboardInterrupt(), "MemoryError": MemoryError()}[excname]
             with Inject(owner, attr, nth, exc, after) as inj:
-                err, cwd_after = call_generate(text, ftype, out, run_opts, cwd)
+                err, cwd_after = call_generate(text, ftype, out_arg, run_opts, cwd)
             fired = inj.fired
     finally:
         after_snap = snapshot(root)
@@ -264,8 +280,9 @@ def one_run(ck: Check, camp, *, doc: str, text: str, ftype: str, modular: bool, 
     out_rel = str(out.relative_to(root))
     diff = tree_diff(before, after_snap)
     obs = {"failed": err is not None, "error": None if err is None else type(err).__name__, "diff": diff, "cwd_moved": Path(cwd_after) != cwd}
-    cls = {**base_cls, "output_state": state, "stage": inject[0] if inject else base_cls.get("stage", "none")}
+    cls = {**base_cls, "output_state": state, "stage": inject[0] if inject else base_cls.get("stage", "none"), "out_form": out_form}
     camp.hit(f"state:{state}")
+    camp.hit(f"output-path:{out_form}")
     camp.hit(("failed:" + type(err).__name__) if err else "succeeded")
     # --- the property's own oracle -------------------------------------------------------------
     if obs["cwd_moved"]:
@@ -279,7 +296,7 @@ def one_run(ck: Check, camp, *, doc: str, text: str, ftype: str, modular: bool, 
         outside = [d for d in diff if not (d.split(":")[0] == out_rel or d.split(":")[0].startswith(out_rel + "/"))]
         if outside:
             ck.fail({**cls, "oracle": "success_writes_inside_output", "mechanism": "write_outside_output"}, inp,
-                    f"a successful run changed entries outside {out_rel}: {outside[:4]}")
+                    f"a successful run (output={str(out_arg)!r}, cwd={'<scratch>/' + str(cwd.relative_to(root)) if cwd != root else '<scratch>'}) changed entries outside {out_rel}: {outside[:4]}")
         if not diff:
             camp.hit("success_without_change")
     camp.distinct.add(json.dumps(inp, sort_keys=True, default=str))
@@ -315,6 +332,7 @@ def campaign_faults(ck: Check, n_seeded: int, nths: list[int]) -> None:
     for i in range(n_seeded):
         docs[f"seeded{i}"] = seeded_doc(rng, i)
     st = stages()
+    n_rel = [0]
     model_reqs, model_obs = [], []
     for doc, (text, ftype, modular) in docs.items():
         for state in OUTPUT_STATES:
@@ -330,6 +348,10 @@ def campaign_faults(ck: Check, n_seeded: int, nths: list[int]) -> None:
                             excname = "Injected" if not (name == "DataModel.render" and nth == 2) else rng.choice(["KeyboardInterrupt", "MemoryError", "Injected"])
                             obs = one_run(ck, camp, doc=doc, text=text, ftype=ftype, modular=modular, state=state, opts=opts,
                                           inject=(name, owner, attr, nth, after, excname), base_cls={"kind": "injected"})
+                            if nth == 1 and not after and not opts and name in ("parser.parse_raw", "DataModel.render", "get_version"):
+                                n_rel[0] += 1   # the same fault with the output path written relative to the working directory
+                                one_run(ck, camp, doc=doc, text=text, ftype=ftype, modular=modular, state=state, opts=opts,
+                                        inject=(name, owner, attr, nth, after, excname), base_cls={"kind": "injected"}, out_form=OUT_FORMS[1 + n_rel[0] % 3])
                             if obs is None:
                                 continue
                             camp.hit(f"stage:{name}")
@@ -387,6 +409,7 @@ GENUINE = [
 def campaign_genuine(ck: Check) -> None:
     camp = ck.campaign("genuine failures (unparsable input, unresolvable $ref, unsupported construct, modular result into a file, header read, encoding) x output states")
     t0 = time.time()
+    n_rel = [0]
     for name, text, ftype, modular, opts, fclass in GENUINE:
         for state in OUTPUT_STATES:
             if name == "modular_into_file" and state != "existing_file":
@@ -395,18 +418,21 @@ def campaign_genuine(ck: Check) -> None:
             obs = genuine_run(ck, camp, name, text, ftype, modular, state, o, fclass, kind=opts.get("_kind"))
             if obs is not None and not obs["failed"]:
                 camp.hit(f"did_not_fail:{name}")
+            if not opts.get("_kind"):   # the same failure with the output path written relative to the working directory
+                n_rel[0] += 1
+                genuine_run(ck, camp, name, text, ftype, modular, state, o, fclass, out_form=OUT_FORMS[1 + n_rel[0] % 3])
     # chdir target does not exist: os.chdir(path.parent) fails inside the try
     obs = genuine_run(ck, camp, "output_parent_missing", DOCS["single"][0], "jsonschema", False, "missing", {"_deep_output": True}, "chdir_target_missing")
     camp.wall_s = time.time() - t0
 
 
-def genuine_run(ck, camp, name, text, ftype, modular, state, opts, fclass, kind=None):
+def genuine_run(ck, camp, name, text, ftype, modular, state, opts, fclass, kind=None, out_form="absolute"):
     o = dict(opts)
     deep = o.pop("_deep_output", False)
     if deep or kind:
         return special_run(ck, camp, name, text, ftype, state, o, fclass, deep, kind)
     return one_run(ck, camp, doc="genuine:" + name, text=text, ftype=ftype, modular=modular, state=state, opts=o, inject=None,
-                   base_cls={"kind": "genuine", "stage": fclass})
+                   base_cls={"kind": "genuine", "stage": fclass}, out_form=out_form)
 
 
 def special_run(ck, camp, name, text, ftype, state, opts, fclass, deep, kind):
@@ -460,11 +486,11 @@ def campaign_success(ck: Check, n_seeded: int) -> None:
     reqs, obss = [], []
     for doc, (text, ftype, modular) in docs.items():
         for state in ("missing", "directory_with_results") if modular else ("missing", "existing_file"):
-            for opts in ({}, {"formatters": ["black", "isort"]}):
-                obs = one_run(ck, camp, doc=doc, text=text, ftype=ftype, modular=modular, state=state, opts=opts, inject=None, base_cls={"kind": "success"})
+            for opts, form in [({}, f) for f in OUT_FORMS] + [({"formatters": ["black", "isort"]}, "absolute")]:
+                obs = one_run(ck, camp, doc=doc, text=text, ftype=ftype, modular=modular, state=state, opts=opts, inject=None, base_cls={"kind": "success"}, out_form=form)
                 if obs is not None and not obs["failed"] and not opts:
                     reqs.append(model_request(obs, modular, "-", seg="none"))
-                    obss.append((obs, {"doc": doc, "state": state}))
+                    obss.append((obs, {"doc": doc, "state": state, "output_path": form}))
     for (obs, what), rep in zip(obss, ck.driver.run(reqs)):
         toks = rep.split(" ")
         statuses = dict(t.rsplit("=", 1) for t in toks[2:])
@@ -605,7 +631,8 @@ def replay(ck: Check, path: str) -> int:
         if inp.get("special"):
             special_run(ck, camp, doc.split(":", 1)[-1], text, ftype, inp["output_state"], {}, "replay", inp["special"] == "deep_output", None if inp["special"] == "deep_output" else inp["special"])
         else:
-            one_run(ck, camp, doc=doc, text=text, ftype=ftype, modular=modular, state=inp["output_state"], opts=inp.get("opts", {}), inject=inject, base_cls={"kind": "replay"})
+            one_run(ck, camp, doc=doc, text=text, ftype=ftype, modular=modular, state=inp["output_state"], opts=inp.get("opts", {}), inject=inject, base_cls={"kind": "replay"},
+                    out_form=inp.get("out_form", "absolute"))
     for f in ck.failures:
         print("REPLAY-FAILS:", json.dumps(f.classification), f.observed[:300])
     if not ck.failures:
